@@ -6,7 +6,7 @@ import isoutil as iu
 from props.framing import block_ref, vbs_ref, hlist, in_stream
 
 ID = 'C07'
-CASE_TIMEOUT = 3.0
+CASE_TIMEOUT = 8.0
 JUDGES_HANG = True
 RULE = ('byte strings as messages and as files: well-formed messages (packaged and generated configurations, ASCII/EBCDIC codecs, '
         'binary/hex bitmap) with every structural byte (MTI, bitmap, length prefixes, PDS sub-lengths, TLV tag/length bytes, typed '
